@@ -459,3 +459,123 @@ pub fn run(ctx: &Ctx, report: &mut Report) {
 pub fn replay(ctx: &Ctx, sub: &str, case: &serde_json::Value) -> SubResult {
     replay_case::<LCase, _>(ctx, sub, case, exec_listen)
 }
+
+// ------------------------------------------------------------------------------------------
+// A handle dropped while another thread is in the middle of dispatching an event: once the drop has
+// returned, the subscription must be gone. The schedule is owned by the harness (channels), no
+// timing decides the verdict.
+
+#[derive(Clone, Debug, Serialize, Deserialize)]
+pub struct DropRaceCase {
+    pub prefix: Vec<u8>,
+    pub key_tail: Vec<u8>,
+    /// Other subscriptions registered before / after the one that is dropped.
+    pub others_before: u8,
+    pub others_after: u8,
+    /// Drop while a dispatch is in progress (true) or between dispatches (false, control).
+    pub during_dispatch: bool,
+}
+
+pub fn exec_drop_race(case: &DropRaceCase, tally: &mut Tally) -> Result<(), Failure> {
+    use std::sync::atomic::{AtomicUsize, Ordering};
+    use std::sync::mpsc;
+    let fd = FdCfg::default();
+    let owner_id = simple_id("owner", 0, 7101);
+    let mut node = build_node(&owner_id, "c", Duration::from_nanos(GRACE_NS), &fd, false, 0).chitchat;
+    let prefix = sym_string(&case.prefix);
+    let key = format!("{prefix}{}", sym_string(&case.key_tail));
+    let (entered_tx, entered_rx) = mpsc::channel::<()>();
+    let (release_tx, release_rx) = mpsc::channel::<()>();
+    let release_rx = std::sync::Mutex::new(release_rx);
+    let entered_tx = std::sync::Mutex::new(entered_tx);
+    let blocker_calls = std::sync::Arc::new(AtomicUsize::new(0));
+    let bc = blocker_calls.clone();
+    // The blocking listener: on its first call it reports "inside a dispatch" and waits.
+    let blocker = node.subscribe_event("", move |_| {
+        if bc.fetch_add(1, Ordering::SeqCst) == 0 {
+            let _ = entered_tx.lock().unwrap().send(());
+            let _ = release_rx.lock().unwrap().recv_timeout(std::time::Duration::from_secs(5));
+        }
+    });
+    let mut keep = Vec::new();
+    for i in 0..case.others_before % 4 {
+        keep.push(node.subscribe_event(if i % 2 == 0 { prefix.clone() } else { String::new() }, |_| {}));
+    }
+    let victim_calls = std::sync::Arc::new(AtomicUsize::new(0));
+    let vc = victim_calls.clone();
+    let victim = node.subscribe_event(prefix.clone(), move |_| {
+        vc.fetch_add(1, Ordering::SeqCst);
+    });
+    for i in 0..case.others_after % 4 {
+        keep.push(node.subscribe_event(if i % 2 == 0 { prefix.clone() } else { String::new() }, |_| {}));
+    }
+    let calls_after_drop = std::thread::scope(|scope| -> Result<usize, Failure> {
+        if case.during_dispatch {
+            let node_ref = &mut node;
+            let k = key.clone();
+            let writer = scope.spawn(move || {
+                node_ref.self_node_state().set(&k, "v1");
+            });
+            // wait until the writer is inside the dispatch (holding the listeners' read lock)
+            if entered_rx.recv_timeout(std::time::Duration::from_secs(5)).is_err() {
+                let _ = release_tx.send(());
+                let _ = writer.join();
+                return Err(Failure::new("C15/setup", "dispatch did not start"));
+            }
+            let (about_tx, about_rx) = mpsc::channel::<()>();
+            let dropper = scope.spawn(move || {
+                let _ = about_tx.send(());
+                drop(victim);
+            });
+            let _ = about_rx.recv_timeout(std::time::Duration::from_secs(5));
+            // give the dropper a moment to reach the lock while the dispatch is still in progress
+            std::thread::sleep(std::time::Duration::from_millis(15));
+            let _ = release_tx.send(());
+            let _ = writer.join();
+            let _ = dropper.join();
+        } else {
+            drop(victim);
+            let _ = release_tx.send(());
+        }
+        Ok(0)
+    })?;
+    let _ = calls_after_drop;
+    // The drop has returned: from now on the dropped subscription must stay silent.
+    let before = victim_calls.load(Ordering::SeqCst);
+    let r = guard(|| {
+        node.self_node_state().set(&key, "v2");
+        node.self_node_state().set(&key, "v3");
+    });
+    if let Err(p) = r {
+        return Err(Failure::new(format!("C15/{}", p.signature()), p.describe()));
+    }
+    let after = victim_calls.load(Ordering::SeqCst);
+    drop(blocker);
+    drop(keep);
+    if after != before {
+        return Err(Failure::new(
+            "C15/dropped-handle-still-called",
+            format!("a subscription on prefix {prefix:?} whose handle was dropped {} was called {} more times for key {key:?} after the drop had returned", if case.during_dispatch { "while another thread was dispatching an event" } else { "between events" }, after - before),
+        ));
+    }
+    if case.during_dispatch {
+        tally.nontrivial(str_hash(&format!("{case:?}")));
+        tally.label("drop_during_dispatch");
+        tally.sample(|| serde_json::to_value(case).unwrap());
+    }
+    Ok(())
+}
+
+pub fn drop_race_strategy() -> impl Strategy<Value = DropRaceCase> {
+    (proptest::collection::vec(0u8..4, 0..=2), proptest::collection::vec(0u8..4, 0..=2), 0u8..4, 0u8..4, prop_oneof![4 => Just(true), 1 => Just(false)])
+        .prop_map(|(prefix, key_tail, others_before, others_after, during_dispatch)| DropRaceCase { prefix, key_tail, others_before, others_after, during_dispatch })
+}
+
+pub fn run_drop_race(ctx: &Ctx, report: &mut Report) {
+    // Real threads with a 15 ms overlap per case: a modest fixed number of cases.
+    report.push(run_proptest(ctx, "drop-during-dispatch", ctx.cases(320, 8_000), 50, drop_race_strategy, exec_drop_race));
+}
+
+pub fn replay_drop_race(ctx: &Ctx, sub: &str, case: &serde_json::Value) -> SubResult {
+    replay_case::<DropRaceCase, _>(ctx, sub, case, exec_drop_race)
+}
